@@ -236,8 +236,8 @@ func (m *Machine) accessesOf(t trans) sleeper {
 }
 
 func dependent(a, b sleeper) bool {
-	if (!a.tailKnown && len(a.gs) > 0 && a.gs[0] >= 0 && b.peeks()) || (!b.tailKnown && b.gs[0] >= 0 && a.peeks()) {
-		return true
+	if !noDPOR && ((!a.tailKnown && a.gs[0] >= 0 && b.peeks()) || (!b.tailKnown && b.gs[0] >= 0 && a.peeks())) {
+		return true // (experimental DPOR only)
 	}
 	for _, x := range a.gs {
 		for _, y := range b.gs {
